@@ -167,6 +167,11 @@ def run_scripted(sid, ctx):
     timeout = rng.choice([None, None, 0.25])
     managed = rng.random() < 0.5
     history = gen_history(rng, timeout is not None)
+    if sid % 12 == 7:
+        # timeout=0 / 0.0: any wait is too long - a call with a batch that never completes must still raise TimeoutError
+        timeout = rng.choice([0, 0.0])
+        history = [dict(n=n, kind="never", hold=rng.randrange(n)) for n in (rng.choice([1, 2, 6]), rng.choice([3, 12]))][:rng.choice([1, 2])]
+        ctx.count("histories_with_timeout_zero")
     trace = Trace()
     sync_p = rng.choice([0.0, 0.0, 0.3])
     srng = harness.rng_for(ctx.seed, ID, "sync", sid)
